@@ -2,7 +2,7 @@
    GroupBy.var = (group sum of squares - (group sum)^2 / count) / (count - ddof), three group
    reductions whose exactness is C01/C04.  Exact arithmetic over Qc. *)
 From Coq Require Import List ZArith QArith Qcanon.
-From GL Require Import Proofs.VarProofs Lib.Arr Model.Factorize Spec.RowSpec Proofs.IndexerProofs.
+From GL Require Import Proofs.VarFloat Proofs.VarProofs Lib.Arr Model.Factorize Spec.RowSpec Proofs.IndexerProofs.
 Import ListNotations.
 Open Scope Qc_scope.
 
@@ -45,3 +45,30 @@ Theorem C16_apply_sees_group_rows_in_row_order {A} (d : A) (vals : list A) gk co
   = map (get d vals) (positions_of g gk None).
 Proof. exact (group_values_in_row_order d vals gk counts key_map ng chunks g). Qed.
 Print Assumptions C16_apply_sees_group_rows_in_row_order.
+
+(* 5. Rounding: in the standard model of floating-point arithmetic (every operation returns the exact result times
+      (1 + delta), |delta| <= u) the one-pass variance computed with the two sums evaluated in ANY bracketing
+      (sequential, per-thread blocks, per-chunk partials merged afterwards; t1 / t2 are the summation trees of the
+      values and of their rounded squares) is within var_bound of the exact value; var_bound is an explicit function,
+      PROPORTIONAL TO THE SQUARED MAGNITUDE M^2 of the data, and clipping at zero does not increase the error.
+      The harness uses this very function (extracted) as its tolerance. *)
+Open Scope Q_scope.
+Theorem C16_sum_error_any_bracketing u rnd t : 0 <= u ->
+  (forall x B, -B <= x <= B -> -(u * B) <= rnd x - x <= u * B) -> leaves_ok u t ->
+  near (fl rnd t) (exact t) (E u (S (height t)) * asum t).
+Proof. exact (fun Hu Hr => sum_error u Hu rnd Hr t). Qed.
+Theorem C16_variance_rounding_bound u rnd t1 t2 n kn kd M : 0 <= u ->
+  (forall x B, -B <= x <= B -> -(u * B) <= rnd x - x <= u * B) ->
+  leaves_ok u t1 -> leaves_ok u t2 -> 0 <= n -> 0 <= kn -> 0 <= kd -> 0 <= M ->
+  asum t1 <= n * M -> asum t2 <= n * (M * M) ->
+  near (var_fl rnd t1 t2 kn kd) (var_exact t1 t2 kn kd) (var_bound u n kn kd M (height t1) (height t2)).
+Proof. exact (fun Hu Hr => var_error u Hu rnd Hr t1 t2 n kn kd M). Qed.
+Theorem C16_bound_is_proportional_to_squared_magnitude u n kn kd M h1 h2 :
+  var_bound u n kn kd M h1 h2 == M * M * var_bound u n kn kd 1 h1 h2.
+Proof. exact (var_bound_homogeneous u n kn kd M h1 h2). Qed.
+Theorem C16_clip_keeps_the_bound vh v e : 0 <= v -> near vh v e -> near (if Qle_bool 0 vh then vh else 0) v e.
+Proof. exact (clip_near vh v e). Qed.
+Print Assumptions C16_sum_error_any_bracketing.
+Print Assumptions C16_variance_rounding_bound.
+Print Assumptions C16_bound_is_proportional_to_squared_magnitude.
+Print Assumptions C16_clip_keeps_the_bound.
